@@ -406,7 +406,7 @@ def _deep_equal(a, b):
 
 class Unit:
     def __init__(self, name, fn, tiers=("quick", "thorough"), params=None, feas_ms=1000, ob_ms=20000, max_paths=400, wall_s=240,
-                 functions=(), bounds="", subspace="", shim=True, group=True, samples=2, raises=(), key=None, expect_paths=1):
+                 functions=(), bounds="", subspace="", shim=True, group=True, samples=2, raises=(), key=None, expect_paths=1, opts=None):
         self.name = name
         self.fn = fn
         self.tiers = tiers
@@ -424,6 +424,7 @@ class Unit:
         self.raises = tuple(raises)  # exception types the property allows the real code to raise
         self.key = key or name
         self.expect_paths = expect_paths
+        self.opts = opts or {}
 
 
 def _model_values(model, ctx_inputs):
@@ -571,6 +572,7 @@ def run_unit(prop_id, unit, tier, seed=0):
                 continue
             # pinned symbolic run
             eng = core.Engine(feas_timeout_ms=unit.feas_ms, max_paths=50, wall_s=60, seed=seed)
+            eng.opts = unit.opts
             pins = dict(cctx.values)
 
             def pinned_body():
@@ -598,6 +600,7 @@ def run_unit(prop_id, unit, tier, seed=0):
 
     # ---- 2. symbolic exploration
     eng = core.Engine(feas_timeout_ms=unit.feas_ms, max_paths=unit.max_paths, wall_s=unit.wall_s, seed=seed)
+    eng.opts = unit.opts
 
     def body():
         ctx = Ctx("sym", unit=unit, tier=tier)
